@@ -83,7 +83,13 @@ def run_oracle(c, scr=None, scc=None, info=None):
     outs = []
     for sc in (scr, scc):
         arrays = Y.with_state(sc, inv_eps=inv_eps, sig_e=sig_e)
-        st = f.run_fdtd(arrays=arrays, objects=L.with_amps(sc, c["amp"]), config=sc.config, key=jax.random.PRNGKey(0), show_progress=False)
+        try:
+            st = f.run_fdtd(arrays=arrays, objects=L.with_amps(sc, c["amp"]), config=sc.config, key=jax.random.PRNGKey(0), show_progress=False)
+        except Exception as e:
+            if sc is scr:
+                raise
+            # the real-storage run works and the complex-storage run of the same scene does not
+            return f"run_fdtd raised {type(e).__name__} with use_complex_fields=True while the real-storage run succeeded: {str(e)[:200]}"
         outs.append(st)
     (tr, ar), (tc, ac) = outs
     if not jnp.iscomplexobj(ac.fields.E) or not jnp.iscomplexobj(ac.fields.H):
@@ -208,6 +214,11 @@ def one_case(ctx, c, sample=False):
     scr, scc = L.scene_of(c, None), L.scene_of(c, True)
     info = {}
     d0 = run_oracle(c, scr, scc, info)
+    if d0:
+        ctx.case(nontrivial=None, oracle_failed=True)
+        ctx.impl_property_evals += 1
+        ctx.violation(c, d0)
+        return
     d1 = forward_parts(ctx, c, scr, scc)
     d2, ntf = tfsf_part(ctx, c, scr, ctx.rng)
     kinds = sorted(set(c["faces"].values()))
@@ -236,7 +247,7 @@ FORCED = [
 
 
 def run(ctx):
-    n = ctx.scale(2, 20)
+    n = ctx.scale(2, 14)
     cases = [gen_case(ctx.rng, ctx.thorough, f) for f in FORCED[:n]]
     while len(cases) < n:
         cases.append(gen_case(ctx.rng, ctx.thorough))
